@@ -144,9 +144,35 @@ pub fn decode_steps(t: &mut Tape<'_>, prog: &Program, h: &HistCfg) -> Vec<Step> 
     });
     let count = t.range(h.min_steps, h.max_steps);
     let mut queried: Vec<u32> = Vec::new();
+    // focused histories: one root is requested again and again, nothing else
+    // is, and every edit is a single small change. Staleness that an
+    // intermediate request of a node in the middle would repair stays visible.
+    let focus: Option<u32> = if t.chance(70) {
+        Some(prog.queryable((n - 1 - t.idx(n.min(6))) as u32))
+    } else {
+        None
+    };
     for _ in 0..count {
         if t.is_empty() {
             break;
+        }
+        if let Some(root) = focus {
+            if t.chance(215) {
+                if t.chance(120) {
+                    let i = ins[t.idx(ins.len())];
+                    let op = if t.chance(128) {
+                        SessOp::Update(i, [1i64, -1, 2][t.idx(3)])
+                    } else {
+                        SessOp::Set(i, gen_vals(t, prog.nslots(i)))
+                    };
+                    steps.push(Step::Session { ops: vec![op], by_drop: false });
+                }
+                if !queried.contains(&root) {
+                    queried.push(root);
+                }
+                steps.push(Step::Query(root));
+                continue;
+            }
         }
         let w = [
             70u16, // Session
@@ -159,14 +185,16 @@ pub fn decode_steps(t: &mut Tape<'_>, prog: &Program, h: &HistCfg) -> Vec<Step> 
             if h.allow_release { 18 } else { 0 },
         ];
         let pick_node = |t: &mut Tape<'_>, queried: &Vec<u32>| -> u32 {
-            if !queried.is_empty() && t.chance(140) {
+            let y = if !queried.is_empty() && t.chance(140) {
                 queried[t.idx(queried.len())]
             } else if t.chance(128) {
                 // prefer high ids (roots)
                 (n - 1 - t.idx(n.min(4))) as u32
             } else {
                 t.idx(n) as u32
-            }
+            };
+            // partial nodes are only ever read under their guard
+            prog.queryable(y)
         };
         match t.weighted(&w) {
             0 => {
@@ -276,6 +304,8 @@ pub fn expr_to_json(e: &Expr) -> Value {
         Expr::Unord(ts) => json!({ "unord": pairs_to_json(ts) }),
         Expr::Spawned(ts) => json!({ "spawned": pairs_to_json(ts) }),
         Expr::Detached(n, s) => json!({ "detached": [n, s] }),
+        Expr::Trap(n, s) => json!({ "trap": [n, s] }),
+        Expr::Abandon(n, s, k) => json!({ "abandon": [n, s, k] }),
     }
 }
 
@@ -298,6 +328,12 @@ pub fn expr_from_json(v: &Value) -> Expr {
         "detached" => {
             Expr::Detached(x[0].as_u64().unwrap() as u32, x[1].as_u64().unwrap() as u8)
         }
+        "trap" => Expr::Trap(x[0].as_u64().unwrap() as u32, x[1].as_u64().unwrap() as u8),
+        "abandon" => Expr::Abandon(
+            x[0].as_u64().unwrap() as u32,
+            x[1].as_u64().unwrap() as u8,
+            x[2].as_u64().unwrap() as u8,
+        ),
         other => panic!("unknown expr key {other}"),
     }
 }
